@@ -26,6 +26,9 @@ pub struct SimCfg {
     pub monitors: bool,
     /// evaluate the adjoint-magnitude guard at passes even when the monitors are off
     pub guard_mag: bool,
+    /// never read a gradient between events (no relational observations at passes): the history as a
+    /// program would run it that only looks at its gradients at the very end
+    pub silent: bool,
 }
 
 #[derive(Clone, Debug)]
@@ -187,6 +190,8 @@ pub struct Sim {
     pub train_opt_in_use: Option<usize>,
     /// an evaluation forward happened after a backward: a further backward (gradient accumulation) is legal
     pub train_eval_pending: bool,
+    /// nodes whose gradient slot holds a user-stored array of another shape (a pass must not add to it)
+    pub user_shaped: BTreeSet<usize>,
 }
 
 pub const EXACT_BOUND_F64: f64 = 1125899906842624.0; // 2^50
@@ -283,6 +288,7 @@ impl Sim {
             train_layer_count: 0,
             train_opt_in_use: None,
             train_eval_pending: false,
+            user_shaped: BTreeSet::new(),
         }
     }
 
@@ -471,6 +477,10 @@ impl Sim {
         if watched_touched {
             self.c08_nontrivial += 1;
         }
+        if !bad.is_empty() {
+            // an existing array changed under the program: nothing the shadow knows can be trusted any more
+            self.dead = true;
+        }
         for b in bad {
             self.viol("C08", "alias_changed", "values or dimensions of an existing array changed".into(), b);
         }
@@ -581,7 +591,7 @@ impl Sim {
     fn step_inner(&mut self, ev: &Ev) -> StepOut {
         let guarded = match ev {
             Ev::Pass { root, .. } => self.is_protected(*root),
-            Ev::GradClear { slot, .. } => self.is_protected(*slot),
+            Ev::GradClear { slot, .. } | Ev::GradSet { slot, .. } => self.is_protected(*slot),
             Ev::Update { slots, opt, .. } => slots.iter().any(|s| self.is_protected(*s)) || opt.map(|o| self.train_opt_in_use == Some(o)).unwrap_or(false),
             Ev::Flag { slot, f } => matches!(f, FlagOp::Start | FlagOp::Tracked) && self.is_protected(*slot),
             Ev::FlagClone { src, f, .. } => matches!(f, FlagOp::Start | FlagOp::Tracked) && self.is_protected(*src),
@@ -617,7 +627,7 @@ impl Sim {
                 }
                 let c0 = {
                     let slots = self.sh.slots.borrow();
-                    slots[*cond].as_ref().unwrap().values()[0] as f64
+                    slots[*cond].as_ref().unwrap().values().first().map(|x| *x as f64).unwrap_or(0.0)
                 };
                 if c0 > *thresh {
                     self.do_build(*dst, &then.0, &then.1)
@@ -681,9 +691,9 @@ impl Sim {
                         ClearHow::Replace => h.replace_gradient().is_some(),
                         ClearHow::MutTake => h.gradient_mut().take().is_some(),
                         ClearHow::MutNone => {
-                            let had = h.gradient().is_some();
+                            // exactly what a program writes; no read of the slot beforehand
                             *h.gradient_mut() = None;
-                            had
+                            true
                         }
                     }
                 };
@@ -691,6 +701,7 @@ impl Sim {
                     self.fault("F6_gradient_cleared");
                 }
                 let node = self.node_of(*slot).unwrap();
+                self.user_shaped.remove(&node);
                 if self.cfg.monitors {
                     let now = self.sweep_grads();
                     let mut ex = BTreeSet::new();
@@ -702,6 +713,38 @@ impl Sim {
                     self.commit_grads(now);
                     self.check_immutability(None);
                     self.check_flags("gradclear");
+                }
+                StepOut::Done
+            }
+            Ev::GradSet { slot, vals, flat } => {
+                if !self.live(*slot) {
+                    return StepOut::Skipped("slot empty");
+                }
+                let node = self.node_of(*slot).unwrap();
+                let nd = self.g.nodes[node].dims.clone();
+                if vals.len() != numel(&nd) || !vals.iter().all(|v| v.is_finite()) {
+                    return StepOut::Skipped("gradient of another element count");
+                }
+                let dims = if *flat { vec![vals.len()] } else { nd.clone() };
+                if dims != nd {
+                    self.user_shaped.insert(node);
+                } else {
+                    self.user_shaped.remove(&node);
+                }
+                {
+                    let slots = self.sh.slots.borrow();
+                    let h = slots[*slot].as_ref().unwrap();
+                    *h.gradient_mut() = Some(mk(&dims, vals));
+                }
+                self.fault("F6_gradient_stored_by_the_user");
+                if self.cfg.monitors {
+                    let now = self.sweep_grads();
+                    let mut ex = BTreeSet::new();
+                    ex.insert(node);
+                    self.check_grads_unchanged(&now, &ex, "gradset");
+                    self.commit_grads(now);
+                    self.check_immutability(None);
+                    self.check_flags("gradset");
                 }
                 StepOut::Done
             }
@@ -973,6 +1016,9 @@ impl Sim {
             }
         };
         let reach = self.g.reach(rn);
+        if reach.iter().any(|n| self.user_shaped.contains(n)) {
+            return StepOut::Skipped("a reachable array holds a user-stored gradient of another shape");
+        }
         let adj = if self.cfg.monitors || self.cfg.guard_mag { self.g.adjoints(rn, &seed_vals) } else { BTreeMap::new() };
         if self.cfg.monitors && reach.len() >= 6 && reach.len() <= 40 && self.event_index % 8 == 0 {
             // self-check of the harness: the edge-wise accumulation used for deep graphs agrees with
@@ -1047,7 +1093,7 @@ impl Sim {
             self.check_grads_unchanged(&before, &BTreeSet::new(), "pre-pass");
         }
 
-        {
+        if !self.cfg.silent {
             let slots = self.sh.slots.borrow();
             for (s, hi) in self.info.iter().enumerate() {
                 if hi.is_some() {
@@ -1235,7 +1281,7 @@ impl Sim {
             }
         }
         // relational observation: what this pass left on every live handle
-        {
+        if !self.cfg.silent {
             let slots = self.sh.slots.borrow();
             for (s, hi) in self.info.iter().enumerate() {
                 if hi.is_some() {
@@ -1457,6 +1503,7 @@ impl Sim {
         for (k, s) in slots.iter().enumerate() {
             let (old, g, flag) = &before_obs[k];
             let old_node = self.info[*s].as_ref().unwrap().node;
+            self.user_shaped.remove(&old_node);
             ex.insert(old_node);
             old_nodes.push((old_node, frozen[k]));
             let (now, now_g, now_flag) = {
@@ -1478,8 +1525,8 @@ impl Sim {
                 Some(g) => {
                     if now.dims != old.dims {
                         self.viol("C13", "parameter_shape", class.clone(), format!("parameter s{} changed dimensions {:?} -> {:?}", s, old.dims, now.dims));
-                    } else if g.dims != old.dims {
-                        // a gradient of another shape than its array: C03's business, the step is undefined
+                    } else if g.dims != old.dims && g.bits.len() != old.bits.len() {
+                        // a gradient of another element count than its array: C03's business, the step is undefined
                     } else {
                         let ov = old.vals();
                         let gv = g.vals();
@@ -1598,7 +1645,9 @@ impl Sim {
                 Err(_) => self.cnt.retire_control_panics += 1,
             }
         }
-        self.grad_obs.remove(&l);
+        if !self.handle_nodes().contains(&l) {
+            self.grad_obs.remove(&l);
+        }
         self.post_plain("retire");
         StepOut::Done
     }
